@@ -141,6 +141,7 @@ def explore(rep, br, tier, seed):
     # end to end through the assembler
     e2e(rep, rng, acc, tier)
     e2e_history(rep, rng, acc, tier)
+    e2e_tape_names(rep, rng, acc, tier)
     e2e_exhaustive(rep, acc, tier)
 
 
@@ -250,6 +251,46 @@ def e2e_history(rep, rng, acc, tier):
     impl.reset_global_state()
 
 
+def e2e_tape_names(rep, rng, acc, tier):
+    """The other place where source characters meet the codec: the name on tape of make_wav / make_turbo_wav.
+    Every character of the name, wherever it stands (first, middle, LAST -- trailing blanks of any kind included),
+    must come out as its bk byte in the 16-byte header field (padded with 0x20), or the statement must be refused with
+    invalid-character.  Observed through Compiler.emitted_files (the bytes handed to the tape writer)."""
+    accm = dict(acc)
+    syntax = {0x22, 0x5C, 0x0A, 0x0D, 0x00}
+    spaces = [c for c in range(0x110000) if chr(c).isspace() and c not in syntax]
+    inside = [c for c in sorted(accm) if c not in syntax]
+    outside_pool = [0xA0, 0x2000, 0x2003, 0x200A, 0x3000, 0xFEFF, 0x20AC, 0x401, 0x3B1, 0x2603, 0x1F600, 0x131, 0x17F, 0xDF]
+    picks = list(spaces) + [c for c in inside if c < 0x20 or 0x7F <= c < 0xA0] + rng.sample(inside, 24 if tier == "quick" else 120) \
+        + outside_pool + ([rng.randrange(0x100, 0x30000) for _ in range(200)] if tier != "quick" else [])
+    picks = [c for c in picks if not 0xD800 <= c < 0xE000]
+    cases = []
+    for c in picks:
+        for pos in ("first", "middle", "last"):
+            name = {"first": [c, 0x41, 0x42], "middle": [0x41, c, 0x42], "last": [0x41, 0x42, c]}[pos]
+            cases.append((rng.choice(["make_wav", "make_turbo_wav"]), pos, name))
+    jobs = [(([("t.mac", '%s "o.wav", "%s"\nnop\n' % (d, "".join(map(chr, nm))))],), {"want_emitted": True}) for d, pos, nm in cases]
+    outs = impl.pmap("assemble", jobs)
+    for (d, pos, nm), o in zip(cases, outs):
+        rep.add_eval()
+        rep.nontrivial(("tape", d, pos, tuple(nm)))
+        ok = all(c in accm for c in nm)
+        rep.count("e2e-tape:" + pos + ":" + ("in-table" if ok else "outside") + ":" + str(o["outcome"]))
+        errs = [x[1] for x in o["diags"] if x[0] != "warning"]
+        inp = {"kind": "tape", "directive": d, "position": pos, "codepoints": nm}
+        if o["outcome"] in ("crash", "hang", "harness-error"):
+            rep.violate("e2e-tape:crash", "assembling a tape name crashed", inp, impl={k: o.get(k) for k in ("outcome", "crash", "error")})
+        elif ok:
+            exp = bytes(accm[c] for c in nm).ljust(16, b" ").hex()
+            got = [e[2] for e in (o.get("emitted") or []) if len(e) > 2]
+            if o["outcome"] != "ok" or got != [exp]:
+                rep.violate("e2e-tape:bytes:" + pos, "the name on tape is not the bk bytes of the characters written (padded with blanks to 16)", inp,
+                            impl={"outcome": o["outcome"], "header_name": got, "errors": errs}, expected=exp)
+        elif o["outcome"] != "failed" or "invalid-character" not in errs:
+            rep.violate("e2e-tape:accepted:" + pos, "a tape name with a character outside the bk table was not refused with invalid-character", inp,
+                        impl={"outcome": o["outcome"], "header_name": [e[2] for e in (o.get("emitted") or []) if len(e) > 2], "errors": errs})
+
+
 def _batch_job(args):
     """One program of N lines, one code point per line; returns per line (kind-of-outcome, byte or None)."""
     kind, cps = args
@@ -356,6 +397,15 @@ def replay(data):
             print(f"run {run + 1} ({cs}): outcome {o['outcome']} code {o.get('code')} errors {errs} -> {'as required' if fine else 'VIOLATES C14'}")
             good = good and fine
         return good
+    if inp.get("kind") == "tape":                                    # e2e_tape_names
+        nm = inp["codepoints"]
+        o = impl.assemble([("t.mac", '%s "o.wav", "%s"\nnop\n' % (inp["directive"], "".join(map(chr, nm))))], want_emitted=True)
+        errs = [x[1] for x in o["diags"] if x[0] != "warning"]
+        got = [e[2] for e in (o.get("emitted") or []) if len(e) > 2]
+        print("outcome", o["outcome"], "header name", got, "errors", errs)
+        if all(c in accm for c in nm):
+            return o["outcome"] == "ok" and got == [bytes(accm[c] for c in nm).ljust(16, b" ").hex()]
+        return o["outcome"] == "failed" and "invalid-character" in errs
     if "codepoints" in inp and "kind" in inp:                       # e2e
         s, kind = inp["codepoints"], inp["kind"]
         text = "".join(chr(c) for c in s)
